@@ -471,7 +471,12 @@ func (e *Exec) evalSelector(st *State, x *ast.SelectorExpr) Term {
 			s := types.Unalias(t).Underlying().(*types.Struct)
 			f := s.Field(i)
 			if k == len(idx)-1 {
-				return e.loadFieldDeep(st, t, f, ref)
+				v := e.loadFieldDeep(st, t, f, ref)
+				if isRefType(f.Type()) {
+					// heap invariant: every stored reference is allocated
+					e.assume(st, e.allocFact(v, f.Type(), e.allocGet(st)))
+				}
+				return v
 			}
 			if p, isPtr := f.Type().Underlying().(*types.Pointer); isPtr {
 				ref = e.loadField(st, t, f, ref)
